@@ -1,4 +1,5 @@
 import PyecoreModel.Lemmas.XmiValues
+import PyecoreModel.Lemmas.XmiDoc
 import PyecoreModel.Properties.C11
 import PyecoreModel.Properties.C17
 /-!
@@ -59,3 +60,62 @@ example : encodeOne false (some 0) (none : Option Int) = .nil ∧ encodeOne fals
     encodeOne true (some 0) (some 0) = .attr 0 ∧ encodeOne false (none : Option Int) none = .absent := by decide
 
 end Xmi
+
+/-! ## The document layer (`Model/XmiDoc.lean`): a whole containment tree, element by element -/
+namespace XDoc
+open Xmi
+
+/-- **Element-level round trip.**  For every well-formed object tree — any depth, any number of children, every
+    combination of set / unset / None / default / empty / blank-containing values, with or without `xsi:type`, in both
+    uuid modes and both settings of SERIALIZE_DEFAULT_VALUES — what `load` builds from the element `save` wrote is the
+    object's normal form: the same class, every attribute and reference with its effective value in order, the same
+    children under the same containment features in the same order. -/
+theorem C08_element_roundtrip (mm : MMX) (o : Opts) (hmm : MMOK mm) (n : SNode Str) (h : WFN mm n) (top : Bool) (decl : Nat) :
+    decNode mm top decl (encNode mm o top decl n) = some (eff mm o top n) :=
+  dec_enc mm o hmm n h top decl
+
+/-- **Document-level round trip.**  With references written as tokens (`_build_path_from`) and resolved after all
+    objects exist (`_decode_ereferences`): if every token is one word and resolves in the loaded forest to the path it
+    was written for, loading the saved document gives the normal form of every root with every reference on its
+    original target. -/
+theorem C08_document (mm : MMX) (o : Opts) (hmm : MMOK mm) (render : Path → Str) (parse : Str → Option Path)
+    (roots : List (SNode Path))
+    (hwf : ∀ r ∈ roots, WFG mm (fun p => Word mm.ws (tokenOf mm o render roots p)) r)
+    (hres : ∀ r ∈ roots, AllRefs (fun p =>
+        resolveTok mm o parse (roots.map fun r => eff mm o true (mapT (tokenOf mm o render roots) r))
+          (tokenOf mm o render roots p) = some p) r) :
+    (encodeDoc mm o render roots).bind (decodeDoc mm o parse) = some (roots.map (eff mm o true)) :=
+  doc_roundtrip mm o hmm render parse roots hwf hres
+
+section Example
+/-- a two-class metamodel: `A` with a many-valued string attribute `tags`, a single-valued `n` defaulting to "0", a
+    many-valued containment `kids : A`, a single containment `one : B`, a many-valued reference `refs : A`;
+    `B` a subclass-like second class with attribute `v` -/
+def exMM : MMX :=
+  { nCls := 2
+    cname := fun c => if c = 0 then "A".toList else "B".toList
+    feats := fun c => if c = 0 then
+        [⟨"tags".toList, .attr, true, none, 0, false, false⟩, ⟨"n".toList, .attr, false, some "0".toList, 0, false, false⟩,
+         ⟨"kids".toList, .cont, true, none, 0, false, false⟩, ⟨"one".toList, .cont, false, none, 0, false, false⟩,
+         ⟨"refs".toList, .ref, true, none, 0, false, false⟩]
+      else [⟨"v".toList, .attr, false, none, 0, false, false⟩]
+    ws := fun c => c == ' ' || c == '\t' || c == '\n' }
+
+def exForest : List (SNode Path) :=
+  [.mk [] 0 "u0".toList
+     [("tags".toList, .attrN [some "a b".toList, none, some [] ]), ("kids".toList, .kids), ("refs".toList, .refN [⟨0, [("kids".toList, some 1)]⟩, ⟨0, []⟩]),
+      ("one".toList, .kids)]
+     [.mk "kids".toList 0 "u1".toList [("n".toList, .attr1 "0".toList)] [],
+      .mk "kids".toList 0 "u2".toList [("n".toList, .attr1 "7".toList), ("tags".toList, .attrN [some "x".toList, some "y".toList])] [],
+      .mk "one".toList 1 "u3".toList [("v".toList, .none)] []]]
+
+/-- the whole pipeline on a concrete forest, in fragment mode and in uuid mode: save, load, same normal form -/
+example :
+    (encodeDoc exMM ⟨false, false⟩ (renderPath true) exForest).bind (decodeDoc exMM ⟨false, false⟩ parsePath)
+      = some (exForest.map (eff exMM ⟨false, false⟩ true)) := by decide +kernel
+example :
+    (encodeDoc exMM ⟨true, true⟩ (renderPath true) exForest).bind (decodeDoc exMM ⟨true, true⟩ parsePath)
+      = some (exForest.map (eff exMM ⟨true, true⟩ true)) := by decide +kernel
+end Example
+
+end XDoc
